@@ -7,6 +7,8 @@ import Receptor.Drive.Cert
 import Receptor.Drive.Flood
 import Receptor.Drive.Route
 import Receptor.Drive.Aging
+import Receptor.Drive.Unreach
+import Receptor.Drive.Ads
 /-! Line-protocol driver: one JSON request per line `{"e":engine,"op":op,"a":args,"r":impl-observation}`,
 one JSON reply per line `{"m":model-result,"prop":true|false|null,"why":…}` or `{"bad-op":…}`. -/
 open Lean Receptor.Drive
@@ -22,6 +24,8 @@ def dispatch (e op : String) (a r : Json) : Except String Reply :=
   | "flood" => Receptor.Drive.Flood.handle op a r
   | "route" => Receptor.Drive.Route.handle op a r
   | "aging" => Receptor.Drive.Aging.handle op a r
+  | "unreach" => Receptor.Drive.Unreach.handle op a r
+  | "ads" => Receptor.Drive.Ads.handle op a r
   | _ => throw s!"bad-op unknown engine {e}"
 
 def handleLine (line : String) : String :=
